@@ -104,7 +104,7 @@ theorem finishBlockF_embed (c : FCtx) (st : PStyle) (kids : List PBox) (k : Nat)
       ⟨finishBlock (ctxOf c fs) st p pie id idx out, fs⟩ := by
   unfold finishBlockF
   cases out with
-  | aborted page s => simp [boxFnsList_dropKids_embed]
+  | aborted page s => simp [boxFnsList_dropKids_embed, ht, tblFns_nil]
   | stopped resume s =>
     simp only [boxFnsList_dropKids_embed, ht, tblFns_nil, List.append_nil, unlayAll_nil, ite_self]
   | finished s => rfl
@@ -195,14 +195,16 @@ theorem remakePageF_embed (a : AreaStyle) (d : Doc) (index : Nat) (resume : Opti
     (right : Bool) :
     remakePageF (embedDoc a d) index resume np right [] [] = (remakePage d index resume np right).map embedPage := by
   unfold remakePageF remakePage
-  have ht : (pageCtx (embedDoc a d) index np).tbl = [] := by simp [pageCtx, embedDoc, callTable_embed]
+  have ht : (pageCtxOf (embedDoc a d) index resume np right []).tbl = [] := by
+    simp [pageCtxOf, pageCtx, embedDoc, callTable_embed]
   have hroot : (if isBlankF (embedDoc a d) resume np right [] = true then emptyRootF (embedDoc a d).root
       else (embedDoc a d).root) =
       embed (if isBlank (requestedSide d.rootLtr np.brk) right = true then emptyRoot d.root else d.root) := by
     simp only [isBlankF, embedDoc, List.isEmpty_nil, Bool.not_true, Bool.false_and, Bool.or_false]
     split <;> simp [emptyRootF_embed]
   simp only [hroot, pageStart, placeReported, layoutBoxF_embed _ _ _ _ _ _ _ _ _ _ ht]
-  simp only [isBlankF, embedDoc, List.isEmpty_nil, Bool.not_true, Bool.false_and, Bool.or_false, ctxOf, pageCtx]
+  simp only [isBlankF, embedDoc, List.isEmpty_nil, Bool.not_true, Bool.false_and, Bool.or_false, ctxOf, pageCtx,
+    pageCtxOf, pageNameF]
   split <;> simp_all [embedPage, areaOut]
   split
   · rfl
